@@ -65,9 +65,13 @@ class SrtParagraph:
     """Returns the paragraph end time code"""
     return self._end
 
+  # the tags that the writer emits
+  _TAG_RE = re.compile(r"</?[biu]>|<font color=\"[^\"]*\">|</font>")
+
   def is_only_whitespace(self):
-    """Returns whether the paragraph tex contains only whitespace or is empty"""
-    return len(self._text) == 0 or self._text.isspace()
+    """Returns whether the paragraph text, tags excluded, contains only whitespace or is empty"""
+    text = SrtParagraph._TAG_RE.sub("", self._text)
+    return len(text) == 0 or text.isspace()
 
   def normalize_eol(self):
     """Remove line breaks at the beginning and end of the paragraph, and replace
